@@ -214,7 +214,32 @@ def prog_deep(rnd, tname):
     return {'kind': 'deep', 'spec': spec, 'ops': ops}
 
 
+def prog_slowplug(rnd, tname):
+    """formulas that call functions of a plugin module whose import takes a while (the first
+    evaluation of a compiler imports its function modules)"""
+    v = round(rnd.uniform(1, 50), 2)
+    cells = [{'a': 'S!A1', 'v': v},
+             {'a': 'S!B1', 'f': '=SLOWA(A1)+1', 'p': ['S!A1'], 'd': []},
+             {'a': 'S!C1', 'f': '=SLOWB(A1)*2', 'p': ['S!A1'], 'd': []},
+             {'a': 'S!D1', 'f': '=SLOWB(B1)+SLOWA(C1)', 'p': ['S!B1', 'S!C1'], 'd': []},
+             {'a': 'S!E1', 'f': '=A1*3', 'p': ['S!A1'], 'd': []}]
+    spec = {'sheets': ['S'], 'active': 'S', 'data_sheet': None, 'cells': cells, 'names': {},
+            'iter': None, 'pinned': []}
+    targets = ['S!B1', 'S!C1', 'S!D1', 'S!E1', 'S!C1']
+    ops = [{'op': 'eval', 'a': rnd.choice(targets), 'form': 'cell'}
+           for _ in range(rnd.choice((2, 3, 4)))]
+    if rnd.random() < 0.5:
+        ops.insert(1, {'op': 'set', 'a': 'S!A1', 'v': round(rnd.uniform(1, 50), 2)})
+    return {'kind': 'slowplug', 'spec': spec, 'ops': ops, 'plugins': ['sim.plugin', 'sim.slowplug']}
+
+
 def draw_program(rnd, tname, kind):
+    if kind == 'slowplug':
+        p = prog_slowplug(rnd, tname)
+        p['name'] = tname
+        p['build'] = rnd.choice(('inside', 'outside'))
+        p['warm'] = rnd.random() < 0.3
+        return p
     if kind == 'deep':
         p = prog_deep(rnd, tname)
     elif kind == 'iterative':
@@ -232,7 +257,9 @@ def draw_program(rnd, tname, kind):
     else:
         p = prog_cellfn(rnd, tname)
     p['name'] = tname
-    p['build'] = rnd.choice(('inside', 'inside', 'outside'))
+    p['build'] = rnd.choice(('inside', 'inside', 'outside', 'handoff'))
+    if p['build'] == 'handoff' and kind in ('load', 'cellfn'):
+        p['build'] = 'outside'
     if kind == 'deep':
         p['build'] = 'inside'
     if kind in ('plain', 'iter-acyclic', 'array', 'iterative') and rnd.random() < 0.25:
@@ -279,9 +306,14 @@ def gen_case(rnd, tier, index):
             kinds = ['cellfn', 'cellfn'] + kinds[2:]
         elif tier == 'thorough' and rnd.random() < 0.03:
             kinds[rnd.randrange(n)] = 'deep'      # (a failing evaluation of that depth: seconds)
+        slow = (not kf4) and index % 25 == 7
+        if slow:
+            # two first evaluations that import the same slow plugin module, or one of them
+            # next to an ordinary workload
+            kinds = ['slowplug', rnd.choice(('slowplug', 'slowplug', 'array', 'plain'))] + kinds[2:]
         programs = [draw_program(rnd, f'T{i}', k) for i, k in enumerate(kinds)]
         names = [pr['name'] for pr in programs]
-        line = (not kf4) and rnd.random() < 0.25 and 'deep' not in kinds
+        line = (not kf4) and (not slow) and rnd.random() < 0.25 and 'deep' not in kinds
         if line and rnd.random() < 0.5:
             # A is pre-empted inside a function drawn uniformly from the *distinct* functions
             # of pycel its alone run passes through (so that a leaf function that accounts
@@ -315,6 +347,11 @@ def gen_case(rnd, tier, index):
             if line:
                 schedule['grain'] = 'line'
         cfg = {'ctx': True} if rnd.random() < 0.25 else {}
+        if slow and rnd.random() < 0.8:
+            # the thread that imports is pre-empted in the middle of the import; the other one
+            # runs to its end or for k yield points
+            schedule = {'family': 'import', 'k': rnd.choice((0, 0, 0, rnd.randrange(1, 40))),
+                        'first': rnd.randrange(2)}
     return {'spec': programs[0]['spec'], 'cfg': cfg, 'programs': programs, 'schedule': schedule,
             'ops': []}
 
@@ -329,14 +366,24 @@ def legalise(case):
 def make_model(prog, tmp, suffix):
     """build (or save+describe) the model of a program; runs on the calling thread"""
     from pycel import ExcelCompiler
+    plugins = tuple(prog.get('plugins') or ('sim.plugin',))
     if prog.get('xlsx'):
         # load of a workbook *file* (openpyxl reader, pycel's patches of it) on this thread
         path = os.path.join(tmp, f'{prog["name"]}-{suffix}.xlsx')
         wbgen.to_xlsx(prog['spec'], path, {})
-        model = ExcelCompiler(filename=path, plugins=('sim.plugin',))
+        model = ExcelCompiler(filename=path, plugins=plugins)
     else:
         wb = wbgen.to_workbook(prog['spec'])
-        model = ExcelCompiler(excel=wb, plugins=('sim.plugin',))
+        model = ExcelCompiler(excel=wb, plugins=plugins)
+    if prog.get('build') == 'handoff':
+        # the thread that compiled the workbook also used it (its first evaluation, which sets
+        # the compiler's evaluation context up, happens here), then hands it to another thread
+        first = next((o for o in prog['ops'] if o['op'] == 'eval'), None)
+        if first is not None:
+            try:
+                model.evaluate(first['rng'] if first.get('form') == 'range' else first['a'])
+            except Exception:   # noqa
+                pass
     if prog['kind'] == 'load':
         for c in prog['spec']['cells']:
             try:
@@ -457,18 +504,23 @@ def warm_up(heavy):
             pass
 
 
-def run_alone(prog, tmp, suffix, heavy):
-    """reference / fresh / warm execution of one program without any other thread"""
+def run_alone(prog, tmp, suffix, heavy, same_thread=False):
+    """reference / fresh / warm execution of one program without any other thread;
+    same_thread: the thread that built (and first used) the model also runs the program"""
     box = {}
+    if prog['kind'] == 'slowplug':
+        sched.forget_module('sim.slowplug')
 
     def setup():
         box['m'] = None if prog['build'] == 'inside' and prog['kind'] != 'load' else make_model(
             prog, tmp, suffix)
-    on_fresh_thread(setup, name=f'setup-{suffix}')
 
     def body():
         warm_up(heavy)
         return execute(prog, box['m'], tmp, suffix)
+    if same_thread:
+        return on_fresh_thread(lambda: (setup(), body())[1], name=f'alone-{suffix}')
+    on_fresh_thread(setup, name=f'setup-{suffix}')
     return on_fresh_thread(body, name=f'alone-{suffix}')
 
 
@@ -480,6 +532,8 @@ def src_prefix():
 def count_events(prog, tmp, suffix, grain='cell'):
     """length of the alone run in yield points (for resolving (j, k))"""
     box = {}
+    if prog['kind'] == 'slowplug':
+        sched.forget_module('sim.slowplug')
 
     def setup():
         box['m'] = None if prog['build'] == 'inside' and prog['kind'] != 'load' else make_model(
@@ -587,7 +641,12 @@ def run_case(case):
             if pkey in _REF_CACHE:
                 ref[p['name']], lengths[p['name']], sites[p['name']] = _REF_CACHE[pkey]
                 continue
-            ref[p['name']] = run_alone(p, tmp, 'ref', heavy=False)
+            # (a model handed over by the thread that first used it: the reference is that
+            # very thread going on with it)
+            ref[p['name']] = run_alone(p, tmp, 'ref', heavy=False,
+                                       same_thread=p['build'] == 'handoff')
+            if p['build'] == 'handoff':
+                count('probe:model-first-evaluated-on-another-thread')
             fresh = run_alone(p, tmp, 'fresh', heavy=None)
             count('alone-runs', 2)
             if fresh != ref[p['name']]:
@@ -648,6 +707,10 @@ def run_case(case):
                         switches.append([j + off + k, first])
                     count('site-targeted:' + site.split(':')[0])
                 count('schedule:site')
+            elif schedule.get('family') == 'import' and 'switches' not in schedule:
+                first = names[schedule['first'] % len(names)]
+                switches = [] if first == names[0] else [[1, first]]
+                count('schedule:import')
             else:
                 switches = [list(s) for s in schedule.get('switches', [])]
                 count('schedule:' + schedule.get('family', 'explicit'))
@@ -659,8 +722,14 @@ def run_case(case):
                 for p in programs:
                     models[p['name']] = None if (p['build'] == 'inside' and p['kind'] != 'load') \
                         else make_model(p, tmp, 'conc')
+            if any(p['kind'] == 'slowplug' for p in programs):
+                sched.forget_module('sim.slowplug')
             on_fresh_thread(setup, name='setup-conc')
             s = sched.Scheduler(names, switches, step_cap=cap, grain=grain, prefix=src_prefix())
+            if any(p['kind'] == 'slowplug' for p in programs):
+                sched.install_import_seam()
+                if schedule.get('family') == 'import' or schedule.get('import_pause'):
+                    s.on_import_pause = (None, schedule.get('k', 0))
 
             def body(p):
                 def run():
@@ -683,6 +752,10 @@ def run_case(case):
             count('scheduled-runs')
             count('yield-points', s.step)
             count('fault:preempt', len(taken))
+            if s.import_pauses:
+                count('fault:import-that-takes-a-while', s.import_pauses)
+                count('probe:thread-waited-for-a-module-another-thread-was-importing',
+                      s.import_waits)
             count('probe:preemption-inside-a-formula-evaluation', s.preempt_inside_eval)
             count('grain:' + grain)
             for site in s.switch_sites:
